@@ -123,8 +123,10 @@ def instances_for(prop, tier, seed):
         out.append({'family': 'art', 'size': 3, 'limit': 2, 'two': True})
         out.append({'family': 'art', 'size': 5, 'limit': 3, 'two': True})
     if prop == 'C18':
-        for verdict in ('OK', 'ACK', 'listACK', 'close', 'garbage'):
+        for verdict in ('OK', 'ACK', 'ACKempty', 'ACKperm', 'listACK', 'close', 'garbage'):
             out.append({'family': 'password', 'verdict': verdict})
+        # the transport accepts one byte per write call while the password is sent (short writes are legal)
+        out.append({'family': 'password', 'verdict': 'OK', 'slow': True})
         # the optional-password entry point: a given password (also the empty one) is sent, None sends none
         for verdict in ('OK', 'ACK'):
             out.append({'family': 'password', 'verdict': verdict, 'entry': 'opt', 'pw': ''})
@@ -396,7 +398,7 @@ def run_for(prop, pl):
     return res.to_dict()
 
 # ---------------------------------------------------------------------------- C17 album art
-def art_server(picture, limit, embedded, mime, errcode, limit2=None, cutlf=False, late_err=False):
+def art_server(picture, limit, embedded, mime, errcode, limit2=None, cutlf=False, late_err=False, lie=False):
     """limit2: chunk limit from the second chunk on (the server may hand out less than before); cutlf: the transport delivers a chunk
     up to its last payload byte first and the terminating line feed separately"""
     def handle(srv, line):
@@ -420,7 +422,7 @@ def art_server(picture, limit, embedded, mime, errcode, limit2=None, cutlf=False
             data = picture
         lim = limit if (off == 0 or limit2 is None) else limit2
         chunk = data[off:off + lim]
-        out = b'size: %d\n' % len(data)
+        out = b'size: %d\n' % (1 if lie else len(data))           # lie: the size field is smaller than the chunk that follows
         if mime and parts[0] == b'readpicture':
             out += b'type: ' + mime + b'\n'
         out += b'binary: %d\n' % len(chunk)
@@ -446,14 +448,17 @@ def run_art(P, res, pl):
         late = False
         if size > limit and src < 3 and not pl.get('two') and I.ctx.choose(2, 'late_err') == 1:
             late = True
-        I._artx = (limit2, cutlf, late)
+        lie = False
+        if not late and limit2 is None and not pl.get('two') and src < 3 and min(size, limit) >= 2 and I.ctx.choose(2, 'lie') == 1:
+            lie = True
+        I._artx = (limit2, cutlf, late, lie)
         S.step_deliver = cutlf
         if src == 0:
-            S.server.custom = art_server(picture, limit, True, mime, None, limit2, cutlf, late)
+            S.server.custom = art_server(picture, limit, True, mime, None, limit2, cutlf, late, lie)
         elif src == 1:
-            S.server.custom = art_server(picture, limit, False, None, None, limit2, cutlf, late)
+            S.server.custom = art_server(picture, limit, False, None, None, limit2, cutlf, late, lie)
         elif src == 2:
-            S.server.custom = art_server(picture, limit, False, None, 5, limit2, cutlf, late)
+            S.server.custom = art_server(picture, limit, False, None, 5, limit2, cutlf, late, lie)
         else:
             if I.ctx.choose(2, 'nonekind') == 0:
                 S.server.custom = art_server(None, limit, False, None, None)
@@ -490,7 +495,12 @@ def run_art(P, res, pl):
             bad = 'album_art never resolves (requests: %s)' % reqs[:6]
         else:
             o = outcome_of(c.results[0][1])
-            if pr.interp._artx[2]:
+            if pr.interp._artx[3]:
+                # the server's size field was smaller than the first chunk: whatever the client makes of it, it must not panic
+                # and must not hang; the data it returns is a prefix of what the server sent
+                if o[0] not in ('art', 'none', 'ack', 'typed_error', 'protocol') or (o[0] == 'art' and not picture.startswith(o[1])):
+                    bad = 'inconsistent size field: album_art returns %s' % (o[:2],)
+            elif pr.interp._artx[2]:
                 if o[0] != 'ack' or int(o[1]) != 50:
                     bad = 'the server answered a later chunk request with error 50, album_art returns %s' % (o[:3],)
             elif other_err:
@@ -503,6 +513,8 @@ def run_art(P, res, pl):
                 if o[0] != 'art' or o[1] != picture or o[2] != (mime if src == 0 else None):
                     bad = 'album_art returns %s, the picture is %r (mime %r)' % (o, picture, mime if src == 0 else None)
             # offsets strictly increasing per command, fallback exactly when needed
+            if pr.interp._artx[3]:
+                reqs = []
             offs = {}
             for l in reqs:
                 p = l.split()
@@ -517,7 +529,7 @@ def run_art(P, res, pl):
         res.cls('art source %d' % src, nontrivial=True)
         if bad:
             res.violations.append({'what': bad, 'input': {'scenario': pl, 'source': src, 'mime': mime is not None, 'other_err': other_err,
-                                                          'limit2': pr.interp._artx[0], 'cutlf': pr.interp._artx[1], 'late_err': pr.interp._artx[2]}})
+                                                          'limit2': pr.interp._artx[0], 'cutlf': pr.interp._artx[1], 'late_err': pr.interp._artx[2], 'lie': pr.interp._artx[3]}})
         if len(res.samples) < 1:
             res.samples.append({'size': size, 'limit': limit, 'source': src, 'requests': [r.decode() for r in reqs]})
         res.take_stats(pr.ctx.stats); pr.ctx.stats.__init__()
@@ -533,6 +545,8 @@ def run_password(P, res, pl):
         if pl.get('entry') == 'opt':
             S.connect_entry = 'opt'
         S.server.password = verdict
+        if pl.get('slow'):
+            S.t.max_write = 1             # one byte per write call: the password line still has to arrive complete and alone
         r = S.connect()
         if r.variant == 'Ok':
             S.settle()
@@ -559,7 +573,7 @@ def run_password(P, res, pl):
                 bad = 'lines written after a rejected password: %s' % lines[1:]
             else:
                 e = r.fields[0]
-                want = 'IncorrectPassword' if verdict in ('ACK', 'listACK') else 'ProtocolError'
+                want = 'IncorrectPassword' if verdict in ('ACK', 'ACKempty', 'ACKperm', 'listACK') else 'ProtocolError'
                 if e.variant != want:
                     bad = 'verdict %s yields %s' % (verdict, e.variant)
         res.cls('password ' + verdict, nontrivial=True)
@@ -640,7 +654,7 @@ def replay_for(prop, rec, every=0):
     if pl.get('family') == 'password':
         pw = pl.get('pw', 'hunter 2')
         spec = ('opt:' if pl.get('entry') == 'opt' else 'pw:') + ('-' if pw is None else hexs(pw.encode()))
-        out = run_replay(['client', '', spec, pl['verdict'], '-'])
+        out = run_replay(['client', '', spec, pl['verdict'], '-'] + (['slowconnect'] if pl.get('slow') else []))
         if 'panic' in out:
             return True, 'native run panics'
         lines = out.get('line', [])
@@ -650,12 +664,13 @@ def replay_for(prop, rec, every=0):
             return (conn != 'Ok' or lines[:1] != ['idle']), 'native: connect=%s lines=%s' % (conn, lines)
         first = 'password "hunter 2"' if pw else 'password '
         bad = (not lines or lines[0] != first or (v == 'OK' and (conn != 'Ok' or lines[1:2] != ['idle'])) or
-               (v != 'OK' and (not conn.startswith('Err') or len(lines) != 1 or (('IncorrectPassword' in conn) != (v in ('ACK', 'listACK'))))))
+               (v != 'OK' and (not conn.startswith('Err') or len(lines) != 1 or (('IncorrectPassword' in conn) != (v in ('ACK', 'ACKempty', 'ACKperm', 'listACK'))))))
         return bad, 'native: connect=%s lines=%s' % (conn, lines)
     if pl.get('family') == 'art':
         src = inp.get('source', 0)
         nsrc = 4 if inp.get('other_err') else (src if src < 3 else 3)
-        spec = '%d,%d,%d,%d,%d,%d,%d' % (pl['size'], pl['limit'], nsrc, 1 if inp.get('mime') else 0, inp.get('limit2') or 0, 1 if inp.get('cutlf') else 0, 1 if inp.get('late_err') else 0)
+        spec = '%d,%d,%d,%d,%d,%d,%d,%d' % (pl['size'], pl['limit'], nsrc, 1 if inp.get('mime') else 0, inp.get('limit2') or 0, 1 if inp.get('cutlf') else 0, 1 if inp.get('late_err') else 0,
+                                               1 if inp.get('lie') else 0)
         if pl.get('two'):
             out = run_replay(['client', 'art:other;art:song', '-', 'OK', spec, 'loop', 'issue0'] + ['loop', 'deliver'] * 12 + ['poll0', 'issue0'])
         else:
@@ -664,6 +679,9 @@ def replay_for(prop, rec, every=0):
             return True, 'native run panics'
         picture = bytes([0x41 + (i % 5) if i % 3 else 10 for i in range(pl['size'])])
         res_ = out.get('result0', ['?'])[-1].partition(' => ')[2]
+        if inp.get('lie'):
+            okl = res_ == 'none' or res_.startswith(('ack ', 'typed_error', 'protocol')) or (res_.startswith('art ') and hexs(picture).startswith(res_.split()[1].replace('-', '')))
+            return (not okl), 'native: result %s' % res_
         if inp.get('late_err'):
             return (not res_.startswith('ack 50 ')), 'native: result %s' % res_
         if inp.get('other_err'):
